@@ -1471,6 +1471,8 @@ func (*blockingLog).ConsumeBlocking
     assert[notify_waiterr] ret0 == OffsetInvalid && len(ret1) == 0 && ret2 != nil at return 1
     // ... otherwise the answer is exactly what Consume returns for the same arguments at that moment
     assert[notify_consume] arg0 == offset && arg1 == maxCount at call Log.Consume 1
+    // ... and only after a wait that did not fail (also not with the closed notifier)
+    assert[notify_waited]  err == nil at call Log.Consume 1
 
 func (*blockingLog).ConsumeByKeyBlocking
     flags noframe only_notify
@@ -1478,6 +1480,7 @@ func (*blockingLog).ConsumeByKeyBlocking
     assert[notify_wait]    arg0 == l.notify && arg1 == ctx && arg2 == offset at call (*Offset).Wait 1
     assert[notify_waiterr] ret0 == OffsetInvalid && len(ret1) == 0 && ret2 != nil at return 1
     assert[notify_consume] arg0 == key && arg1 == offset && arg2 == maxCount at call Log.ConsumeByKey 1
+    assert[notify_waited]  err == nil at call Log.ConsumeByKey 1
 
 func (*blockingLog).Close
     flags noframe only_notify
